@@ -753,6 +753,15 @@ def _slice_field_map(prog):
             l, r = n.c[0].strip_all(), n.c[1].strip_all()
             if l.k == "MemberExpr" and l.decl and l.decl.get("k") == "field" and r.k == "DeclRefExpr" and r.decl and r.decl.get("k") == "parm":
                 direct[r.decl["n"]] = l.decl["n"]
+    # ... or in the member-initialiser list, possibly through a validator that returns its argument ( _m{_nonzero(m)} )
+    from .ir import _through_identity_helper
+    for ci in f.ctor_inits():
+        if ci.get("member") and ci.get("written") and ci.c:
+            e = _through_identity_helper(ci.c[0]).strip_all()
+            while e.k in ("InitListExpr", "ParenExpr") and len(e.c) == 1:
+                e = _through_identity_helper(e.c[0]).strip_all()
+            if e.k == "DeclRefExpr" and e.decl and e.decl.get("k") == "parm" and e.decl["n"] not in direct:
+                direct[e.decl["n"]] = ci.get("member")
     mp = {}
     for p in pnames:
         if p in direct:
@@ -1011,6 +1020,15 @@ def rule_G5(prog, fixture=False):
                 r = x.c[1].strip_all()
                 if l.k == "MemberExpr" and l.decl and l.decl.get("n") == fld and r.k == "DeclRefExpr" and r.decl.get("n") == prm:
                     direct = True
+        if not direct:
+            from .ir import _through_identity_helper
+            for ci in f.ctor_inits():
+                if ci.get("member") == fld and ci.c:
+                    e = _through_identity_helper(ci.c[0]).strip_all()
+                    while e.k in ("InitListExpr", "ParenExpr") and len(e.c) == 1:
+                        e = _through_identity_helper(e.c[0]).strip_all()
+                    if e.k == "DeclRefExpr" and e.decl and e.decl.get("n") == prm:
+                        direct = True
         if not direct:
             # const int len = n; ... _n = len;
             for x in f.walk():
